@@ -28,7 +28,7 @@ SWAP = [
     {PROV_URI + "Entity", PROV_URI + "Agent"},
     {PROV_URI + "Generation", PROV_URI + "Invalidation", PROV_URI + "Usage"},
     {PROV_URI + "Start", PROV_URI + "End"},
-    {PROV_URI + "Specialization", PROV_URI + "Alternate"},
+    {PROV_URI + "Specialization", PROV_URI + "Alternate", PROV_URI + "Mention"},
 ]
 
 
@@ -97,6 +97,10 @@ def variants(mdoc):
             yield "duplicate[%d,%d]" % (ci, i), "same", assemble(cs)
     if len(conts) > 2:
         yield "bundles-reordered", "same", assemble([conts[0]] + list(reversed(conts[1:])))
+        if conts[1][1] != conts[2][1]:
+            # the record lists of the first two bundles exchanged (identifiers stay)
+            yield "bundle-contents-exchanged", "diff", assemble(
+                [conts[0], (conts[1][0], conts[2][1]), (conts[2][0], conts[1][1])] + conts[3:])
     # content-changing edits
     for ci, (u, rs) in enumerate(conts):
         for i, (t, ident, attrs) in enumerate(rs):
@@ -425,6 +429,13 @@ def main(tier, seed):
             rec = sweeps.shape_ops("D", ("s", "ex"), "A", kind, mask, idmode)
             items.append(("shape", prelude + (rec,)))
             items.append(("shape", prelude + (rec, ("at", ("A", "k", ("s", "ex")), "i_2"))))
+    # documents with two (and three) bundles of different content
+    x, y = ("A", "x", ("s", "ex")), ("A", "y", ("s", "ex"))
+    two = prelude + (("bun", "B1", ("A", "b1", ("s", "ex"))), ("el", "B1", "entity", x),
+                     ("bun", "B2", ("A", "b2", ("s", "ex"))), ("el", "B2", "entity", y), ("at", ("A", "k", ("s", "ex")), "i_2"))
+    items.append(("shape", two))
+    items.append(("shape", two + (("el", "D", "entity", x), ("el", "B1", "agent", y))))
+    items.append(("shape", two + (("bun", "B3", ("A", "b3", ("s", "ex"))), ("el", "B3", "activity", x, (None, None)))))
     out2 = explore.pmap(__name__, tier, {}, "family_case", items, chunk=8)
     out.merge(out2)
     nscript = {"quick": 12, "thorough": 40}[tier]
